@@ -583,6 +583,54 @@ def check_token_level_roundtrip(ctx, model):
     ctx.floor('token_level_rows', 40)
 
 
+# ---- parameter values (USING / SET ...) -------------------------------------------------------------------------------------------------------------
+
+def check_param_values(ctx, model):
+    """param_to_string writes the values of USING / SET parameters: strings, numbers, nested objects and arrays.  It is interpreted on values with every kind of
+    string content; the text is lexed with the mindsdb lexer, and every string token, decoded by the grammar's own (interpreted) decoder, must give back the strings
+    of the value in order: an encoder other than the constant printer's (json.dumps writes \\uXXXX and \\n) is read back as different text."""
+    from ..interp import Interp, Obj, Raised, Env
+    OPF = 'mindsdb_sql/parser/ast/select/operation.py'
+    fn = next((n for n in ctx.src.tree(OPF).body if isinstance(n, ast.FunctionDef) and n.name == 'param_to_string'), None)
+    if fn is None:
+        ctx.note('param_to_string not found: parameter values are printed elsewhere')
+        return
+    g = load_dialect(ctx.src, 'mindsdb')
+    master = master_for(g.lexer)
+    decoders = {'QUOTE_STRING': C04.decoder_model(ctx, g, 'quote_string')[0], 'DQUOTE_STRING': C04.decoder_model(ctx, g, 'dquote_string')[0]}
+    ast_files = tuple(sorted(f for f in ctx.src.py_files('mindsdb_sql/parser') if '/ast/' in f and f != OPF))
+    strings = ['abc', 'Gr\u00fc\u00df Gott', 'line1\nline2', "it's", 'a"b', 'back\\slash', 'tab\there', '\u4e2d\u6587', '']
+    values = list(strings) + [{'k': s_} for s_ in strings] + [[s_, 'x'] for s_ in strings] + [{'outer': {'inner': [s_]}} for s_ in strings[:5]] + [{s_: 1} for s_ in strings[:6]]
+
+    def strings_of(v):
+        if isinstance(v, str):
+            return [v]
+        if isinstance(v, dict):
+            return [x for k_, w in v.items() for x in [str(k_)] + strings_of(w)]
+        if isinstance(v, (list, tuple)):
+            return [x for w in v for x in strings_of(w)]
+        return []
+    n = 0
+    for v in values:
+        it = Interp.for_file(ctx.src, OPF, {'ASTNode': set(), 'Constant': {'ASTNode'}}, dict(C04.lexer_token_stubs(ctx)), also=ast_files)
+        try:
+            text = it.call_function(fn, [v], {}, Env())
+        except Raised as r:
+            text = f'<raises {r.exc_name}>'
+        n += 1
+        got = None
+        if isinstance(text, str) and not text.startswith('<raises'):
+            try:
+                got = [decoders[t_](x_) for t_, x_ in master.tokenize(text) if t_ in decoders]
+            except ValueError:
+                got = None
+        ctx.ob('C01.param-values', repr(v)[:60], got == strings_of(v),
+               f'the parameter value {v!r} is printed as `{text}`; its string tokens read back as {got}, the value holds {strings_of(v)}: the statement re-parses to other '
+               f'parameter values', file=OPF, line=fn.lineno, witness='create agent a using model=m, prompt={"greeting": "Gr\u00fc\u00df Gott"}')
+    ctx.setcount('param_value_probes', n)
+    ctx.floor('param_value_probes', 30)
+
+
 # ---- a clause with a falsy value is still printed -------------------------------------------------------------------------------------------------------
 
 def numeric_fields(ctx, model):
@@ -858,6 +906,7 @@ def run(ctx):
     check_token_level_roundtrip(ctx, model)
     check_raw_text_fields(ctx, model)
     check_falsy_values_printed(ctx, model)
+    check_param_values(ctx, model)
     check_stored_text_stable(ctx)
     # codec (shared with C04): string literals and identifiers
     sub_findings = []
